@@ -69,6 +69,709 @@ def bits_stream(ctx, v2, n):
             ctx.mark_broken(f'correspondence:{name}', f'model and implementation differ on {rows[idx]}')
 
 
+# ------------------------------------------------------------------ result messages
+def _qid(q):
+    return q.row * 100 + q.col
+
+
+def gen_results_case(ctx, cirq, v2):
+    rng = ctx.rng
+    grid = [cirq.GridQubit(r, c) for r in range(4) for c in range(4)]
+    nkeys = rng.choice([1, 1, 2, 3, 4])
+    ms = []
+    for k in rng.sample(['a', 'b', 'm_0', 'zz', 'q(1, 2)', 'k5'], nkeys):
+        nq = rng.choice([1, 1, 2, 3, 5])
+        ms.append(v2.MeasureInfo(key=k, qubits=rng.sample(grid, nq), instances=rng.choice([1, 1, 2, 3]), invert_mask=[False] * nq, tags=[]))
+    sweeps = []
+    for _ in range(rng.choice([1, 1, 2, 3])):
+        reps = rng.choice([0, 1, 2, 3, 7, 8, 9, 15, 16, 17, 25])
+        trials = []
+        for t in range(rng.choice([1, 2, 3])):
+            recs = {m.key: np.array([[[rng.random() < 0.5 for _ in m.qubits] for _ in range(m.instances)] for _ in range(reps)], dtype=bool).reshape((reps, m.instances, len(m.qubits)))
+                    for m in ms}
+            trials.append(cirq.ResultDict(params=cirq.ParamResolver({'p': rng.choice([0.25, 0.1, 3]), 's': float(t)}), records=recs))
+        sweeps.append(trials)
+    return ms, sweeps
+
+
+def results_stream(ctx, cirq, v2, n):
+    rng = ctx.rng
+    rows_enc, rows_dec = [], []
+    kid = {}
+    K = lambda k: kid.setdefault(k, len(kid))
+
+    def ms_lit(ms):
+        return '[' + '; '.join(f'(mkM {K(m.key)} {coq.zlist(_qid(q) for q in m.qubits)} {m.instances})' for m in ms) + ']'
+
+    def rec_lit(a):
+        return '[' + '; '.join('[' + '; '.join(coq.blist(a[r, j]) for j in range(a.shape[1])) + ']' for r in range(a.shape[0])) + ']'
+
+    def trial_lit(t):
+        return f'(mkT {t.repetitions} [' + '; '.join(f'({K(k)}, {rec_lit(np.asarray(a))})' for k, a in t.records.items()) + '])'
+
+    def msg_lit(msg):
+        out = []
+        for sr in msg.sweep_results:
+            prs = []
+            for pr in sr.parameterized_results:
+                mrs = []
+                for mr in pr.measurement_results:
+                    qs = []
+                    for qmr in mr.qubit_measurement_results:
+                        r_, c_ = qmr.qubit.id.split('_')
+                        qs.append(f'({int(r_) * 100 + int(c_)}, {coq.zlist(qmr.results)})')
+                    mrs.append(f'(mkMR {K(mr.key)} {mr.instances} [' + '; '.join(qs) + '])')
+                prs.append('[' + '; '.join(mrs) + ']')
+            out.append(f'(mkSR {sr.repetitions} [' + '; '.join(prs) + '])')
+        return '[' + '; '.join(out) + ']'
+
+    def out_lit(res):
+        return '[' + '; '.join('[' + '; '.join('[' + '; '.join(f'({K(k)}, {rec_lit(np.asarray(a))})' for k, a in t.records.items()) + ']' for t in sw) + ']' for sw in res) + ']'
+
+    def attempt(f):
+        try:
+            return f()
+        except (ValueError, KeyError, IndexError):
+            return None
+
+    for case in range(n):
+        ms, sweeps = gen_results_case(ctx, cirq, v2)
+        mode = rng.choice(['ok', 'ok', 'ok', 'ok', 'missing_key', 'bad_instances', 'reps_mismatch'])
+        enc_ms, enc_sweeps = ms, sweeps
+        if mode == 'missing_key':
+            enc_ms = ms + [v2.MeasureInfo(key='absent', qubits=[cirq.GridQubit(0, 0)], instances=1, invert_mask=[False], tags=[])]
+        elif mode == 'bad_instances':
+            m0 = ms[0]
+            enc_ms = [v2.MeasureInfo(key=m0.key, qubits=m0.qubits, instances=m0.instances + 1, invert_mask=m0.invert_mask, tags=[])] + ms[1:]
+        elif mode == 'reps_mismatch':
+            t0 = sweeps[0][0]
+            extra = cirq.ResultDict(params=t0.params, records={k: np.concatenate([a, a[:1] if len(a) else np.zeros((1,) + a.shape[1:], dtype=bool)]) for k, a in t0.records.items()})
+            enc_sweeps = [sweeps[0] + [extra]] + sweeps[1:]
+        msg = attempt(lambda: v2.results_to_proto(enc_sweeps, enc_ms))
+        reps_list = [sw[0].repetitions for sw in sweeps]
+        nontriv = any(r % 8 for r in reps_list) and any(m.instances > 1 for m in ms) and any(len(m.qubits) > 1 for m in ms)
+        desc = dict(keys={m.key: dict(qubits=[str(q) for q in m.qubits], instances=m.instances) for m in ms}, repetitions=reps_list, mode=mode)
+        ctx.count('results:to_proto', [desc, [[{k: np.asarray(a).tolist() for k, a in t.records.items()} for t in sw] for sw in sweeps]], nontriv,
+                  sample=dict(desc, packed=None if msg is None else [list(q.results) for q in msg.sweep_results[0].parameterized_results[0].measurement_results[0].qubit_measurement_results]))
+        rows_enc.append((ms_lit(enc_ms), '[' + '; '.join('[' + '; '.join(trial_lit(t) for t in sw) + ']' for sw in enc_sweeps) + ']', None if msg is None else msg_lit(msg)))
+        rp = dict(kind='results', mode=mode, measurements=[dict(key=m.key, qubits=[(q.row, q.col) for q in m.qubits], instances=m.instances) for m in ms],
+                  sweeps=[[dict(params={str(k): float(v) for k, v in t.params.param_dict.items()}, records={k: np.asarray(a).astype(int).tolist() for k, a in t.records.items()},
+                                shapes={k: list(np.asarray(a).shape) for k, a in t.records.items()}) for t in sw] for sw in sweeps])
+        if (msg is None) != (mode != 'ok'):
+            ctx.violation('results:to_proto-defined', f'results_to_proto {"raised" if msg is None else "accepted"} in mode {mode}: {desc}', rp)
+        if msg is None:
+            continue
+        # ---- decoding: same measurements, no measurements, permuted qubit order, malformed messages
+        dmode = rng.choice(['same', 'same', 'none', 'permuted', 'permuted', 'dup_qubit', 'missing_measure'])
+        dec_ms = ms
+        msg2 = msg
+        if dmode == 'none':
+            dec_ms = None
+        elif dmode == 'permuted':
+            dec_ms = []
+            for m in ms:
+                qs = list(m.qubits)
+                rng.shuffle(qs)
+                dec_ms.append(v2.MeasureInfo(key=m.key, qubits=qs, instances=m.instances, invert_mask=m.invert_mask, tags=[]))
+        elif dmode == 'dup_qubit':
+            msg2 = type(msg)()
+            msg2.CopyFrom(msg)
+            mr = msg2.sweep_results[0].parameterized_results[0].measurement_results[0]
+            dup = mr.qubit_measurement_results.add()
+            dup.CopyFrom(mr.qubit_measurement_results[0])
+        elif dmode == 'missing_measure':
+            dec_ms = ms[1:] + [v2.MeasureInfo(key='other', qubits=[cirq.GridQubit(0, 0)], instances=1, invert_mask=[False], tags=[])]
+        back = attempt(lambda: v2.results_from_proto(msg2, dec_ms))
+        rows_dec.append(('None' if dec_ms is None else f'(Some {ms_lit(dec_ms)})', msg_lit(msg2), None if back is None else out_lit(back)))
+        ctx.count('results:from_proto', [desc, dmode, msg2.SerializeToString().hex()], nontriv, sample=dict(desc, decode=dmode, ok=back is not None))
+        # spec-level oracle on the real code
+        if dmode in ('same', 'none', 'permuted'):
+            ok = back is not None and len(back) == len(sweeps)
+            if ok:
+                for sw, bsw in zip(sweeps, back):
+                    ok = ok and len(sw) == len(bsw)
+                    for t, b in zip(sw, bsw):
+                        exp_params = {k: float(np.float32(v)) for k, v in t.params.param_dict.items()}
+                        ok = ok and {k: float(v) for k, v in b.params.param_dict.items()} == exp_params and list(b.records) == [m.key for m in ms]
+                        for m, dm in zip(ms, dec_ms or ms):
+                            cols = [m.qubits.index(q) for q in dm.qubits]
+                            ok = ok and b.records[m.key].shape == t.records[m.key].shape and np.array_equal(b.records[m.key], np.asarray(t.records[m.key])[:, :, cols])
+            if not ok:
+                ctx.violation('results:roundtrip', f'results_from_proto(results_to_proto(r, m), {dmode}) differs from r for {desc}', dict(rp, decode=dmode))
+        elif back is not None:
+            ctx.violation('results:malformed-accepted', f'results_from_proto accepted a malformed message/measurement list ({dmode}) for {desc}', dict(rp, decode=dmode))
+    text = ('From Coq Require Import ZArith List Bool.\nFrom VF Require Import Codec.PackBits Codec.PackBitsResults Base.Harness.\n'
+            'Import ListNotations.\nOpen Scope Z_scope.\n'
+            'Definition qm_eqb := list_eqb (pair_eqb Z.eqb zl_eqb).\n'
+            'Definition mr_eqb (a b : mres) := Z.eqb (mr_key a) (mr_key b) && Nat.eqb (mr_instances a) (mr_instances b) && qm_eqb (mr_qubits a) (mr_qubits b).\n'
+            'Definition sr_eqb (a b : sweepres) := Nat.eqb (sr_reps a) (sr_reps b) && list_eqb (list_eqb mr_eqb) (sr_results a) (sr_results b).\n'
+            'Definition recd_eqb := list_eqb (list_eqb bl_eqb).\n'
+            'Definition out_eqb := list_eqb (list_eqb (list_eqb (pair_eqb Z.eqb recd_eqb))).\n')
+    text += 'Definition c_enc : list (list minfo * list (list trial) * option (list sweepres)) := [\n' + ';\n'.join(
+        f'({m}, {sw}, {coq.opt(msg)})' for m, sw, msg in rows_enc) + '].\n'
+    text += 'Eval vm_compute in failing (fun c => match c with (m, sw, msg) => opt_eqb (list_eqb sr_eqb) (results_to_proto m sw) msg end) c_enc.\n'
+    text += 'Definition c_dec : list (option (list minfo) * list sweepres * option (list (list (list (Z * recd))))) := [\n' + ';\n'.join(
+        f'({m}, {msg}, {coq.opt(out)})' for m, msg, out in rows_dec) + '].\n'
+    text += 'Eval vm_compute in failing (fun c => match c with (m, msg, out) => opt_eqb out_eqb (results_from_proto m msg) out end) c_dec.\n'
+    vals = coq.parse_evals(coq.coq_eval(f'c16_results_{ctx.seed}', text))
+    assert len(vals) == 2, vals
+    for name, rows, val in zip(['results_to_proto', 'results_from_proto'], [rows_enc, rows_dec], vals):
+        for idx in coq.parse_nat_list(val):
+            ctx.mark_broken(f'correspondence:{name}', f'model and implementation differ on {str(rows[idx])[:1500]}')
+
+
+# ------------------------------------------------------------------ circuits
+class Vocab:
+    """Generator over the serialisable vocabulary (gate types with numeric / symbolic / expression arguments, tags,
+    classical controls, circuit operations over shared FrozenCircuits, moment and circuit tags)."""
+
+    def __init__(self, ctx, cirq, cg):
+        import sympy
+        self.rng, self.cirq, self.cg, self.sympy = ctx.rng, cirq, cg, sympy
+        self.qubits = [cirq.GridQubit(r, c) for r in range(3) for c in range(3)]
+        self.t, self.u = sympy.Symbol('t'), sympy.Symbol('u')
+        self.cliffords = list(cirq.SingleQubitCliffordGate.all_single_qubit_cliffords)
+
+    def real(self, allow_symbolic=True):
+        rng, t, u = self.rng, self.t, self.u
+        r = rng.random()
+        if r < 0.3:
+            return rng.choice([0, 0.25, 0.5, 1, -0.5, 2, 1.9999999999, 1e-9, 0.1, 1 / 3, -1.25, 3])
+        if r < 0.6 or not allow_symbolic:
+            return round(rng.uniform(-2, 2), rng.choice([2, 5, 15]))
+        if r < 0.75:
+            return rng.choice([t, u])
+        return rng.choice([2 * t, t + 0.5, t * u, t ** 2, 0.25 * t + u, t / 3, 1.7 * t - 0.1 * u, (t + u) * 0.5])
+
+    def gate1(self):
+        cirq, cg, rng = self.cirq, self.cg, self.rng
+        k = rng.choice(['x', 'y', 'z', 'h', 'px', 'pxz', 'rx', 'rz', 'id', 'cliff', 'wait', 'reset', 'depol', 'internal', 'xshift'])
+        if k == 'x':
+            return cirq.XPowGate(exponent=self.real())
+        if k == 'y':
+            return cirq.YPowGate(exponent=self.real())
+        if k == 'z':
+            return cirq.ZPowGate(exponent=self.real())
+        if k == 'h':
+            return cirq.HPowGate(exponent=self.real())
+        if k == 'px':
+            return cirq.PhasedXPowGate(exponent=self.real(), phase_exponent=self.real())
+        if k == 'pxz':
+            return cirq.PhasedXZGate(x_exponent=self.real(), z_exponent=self.real(), axis_phase_exponent=self.real())
+        if k == 'rx':
+            return cirq.rx(self.real(False))            # global_shift = -0.5: only the global phase may be normalised
+        if k == 'rz':
+            return cirq.rz(self.real(False))
+        if k == 'xshift':
+            return cirq.XPowGate(exponent=self.real(), global_shift=rng.choice([0.25, -0.5, 0.5]))
+        if k == 'id':
+            return cirq.IdentityGate(1)
+        if k == 'cliff':
+            return rng.choice(self.cliffords)
+        if k == 'wait':
+            return cirq.WaitGate(cirq.Duration(nanos=rng.choice([0, 10, 12.5, 0.001, 1e6, self.t])))
+        if k == 'reset':
+            return cirq.ResetChannel()
+        if k == 'depol':
+            return cirq.DepolarizingChannel(p=rng.choice([0.1, 0.25, 0.01, 0.0]))
+        return cg.InternalGate(rng.choice(['G1', 'G2']), rng.choice(['mod.a', '']), 1,
+                               **{rng.choice(['a', 'b']): rng.choice([1.5, 0.1, 3, 'txt', True, self.t])})
+
+    def gate2(self):
+        cirq, cg, rng = self.cirq, self.cg, self.rng
+        k = rng.choice(['cz', 'cz', 'iswap', 'fsim', 'syc', 'willow', 'id2', 'depol2', 'internal2', 'wait2'])
+        if k == 'cz':
+            return cirq.CZPowGate(exponent=self.real())
+        if k == 'iswap':
+            return cirq.ISwapPowGate(exponent=self.real())
+        if k == 'fsim':
+            return cirq.FSimGate(theta=self.real(), phi=self.real())
+        if k == 'syc':
+            return cg.SYC
+        if k == 'willow':
+            return cg.WILLOW
+        if k == 'id2':
+            return cirq.IdentityGate(2)
+        if k == 'depol2':
+            return cirq.DepolarizingChannel(p=0.05, n_qubits=2)
+        if k == 'wait2':
+            return cirq.WaitGate(cirq.Duration(nanos=20), num_qubits=2)
+        return cg.InternalGate('G2q', 'mod.b', 2, x=rng.choice([0.3, 2]))
+
+    def tag(self, gate=None):
+        cirq, cg, rng = self.cirq, self.cg, self.rng
+        from cirq_google.ops import PhysicalZTag, FSimViaModelTag, TwoPulseFSimTag, CompressDurationTag, DynamicalDecouplingTag, InternalTag
+        from cirq_google.ops.calibration_tag import CalibrationTag
+        k = rng.choice(['str', 'str', 'int', 'float', 'cal', 'dd', 'internal', 'compress', 'flag'])
+        if k == 'str':
+            return rng.choice(['a', 'b', 'tag with space', ''])
+        if k == 'int':
+            return rng.choice([0, 1, 7, True])
+        if k == 'float':
+            return rng.choice([0.5, 0.1])
+        if k == 'cal':
+            return CalibrationTag(rng.choice(['tok1', 'tok2']))
+        if k == 'dd':
+            return DynamicalDecouplingTag(rng.choice(['X', 'XY4']))
+        if k == 'internal':
+            return InternalTag(name='T', package='pkg', **{rng.choice(['k', 'l']): rng.choice([1, 'v', 0.1])})
+        if k == 'compress':
+            return CompressDurationTag()
+        if isinstance(gate, cirq.ZPowGate):
+            return PhysicalZTag()
+        if isinstance(gate, cirq.FSimGate) and not isinstance(gate, (cg.SycamoreGate, cg.WillowGate)):
+            return rng.choice([FSimViaModelTag(), TwoPulseFSimTag()])
+        return 'flagless'
+
+    def condition(self, keys):
+        cirq, rng, sympy = self.cirq, self.rng, self.sympy
+        k = rng.choice(keys)
+        r = rng.random()
+        if r < 0.4:
+            return cirq.KeyCondition(cirq.MeasurementKey(k), index=rng.choice([-1, -1, 0]))
+        if r < 0.7:
+            return cirq.BitMaskKeyCondition(k, bitmask=rng.choice([None, 1, 2]), target_value=rng.choice([0, 1, 2]), equal_target=rng.random() < 0.5)
+        return cirq.SympyCondition(rng.choice([sympy.Eq(sympy.Symbol(k), 1), sympy.Symbol(k) > 0, sympy.Symbol(k)]))
+
+    def op(self, free, keys, pool, allow_known=True):
+        """One operation on qubits taken from `free` (mutated); None when nothing fits."""
+        cirq, rng = self.cirq, self.rng
+        if pool and rng.random() < 0.35:          # reuse an earlier operation: equal operations must share a constant
+            o = rng.choice(pool)
+            if all(q in free for q in o.qubits):
+                for q in o.qubits:
+                    free.remove(q)
+                return o
+        r = rng.random()
+        if r < 0.12 and len(free) >= 1:
+            n = rng.choice([1, 1, 2, 3])
+            if len(free) < n:
+                n = 1
+            qs = [free.pop(rng.randrange(len(free))) for _ in range(n)]
+            key = rng.choice(['m', 'm', 'n', 'key 3'])
+            mask = rng.choice([(), (), (True,), tuple(rng.random() < 0.5 for _ in qs)])
+            kw = {}
+            if allow_known and rng.random() < 0.04 and n == 1:
+                kw['confusion_map'] = {(0,): np.array([[0.9, 0.1], [0.2, 0.8]])}
+            keys.append(key)
+            o = cirq.measure(*qs, key=key, invert_mask=mask, **kw)
+        elif r < 0.6 or len(free) < 2:
+            g = self.gate1()
+            o = g.on(free.pop(rng.randrange(len(free))))
+        else:
+            g = self.gate2()
+            o = g.on(free.pop(rng.randrange(len(free))), free.pop(rng.randrange(len(free))))
+        controlled = False
+        if keys and rng.random() < 0.15 and not cirq.is_measurement(o):
+            o = o.with_classical_controls(*[self.condition(keys) for _ in range(rng.choice([1, 1, 2]))])
+            controlled = True
+        if not controlled and rng.random() < 0.35:       # tagged classically controlled operations are rejected by the serializer
+            tags = [self.tag(o.gate) for _ in range(rng.choice([1, 1, 2, 3]))]
+            if not allow_known or rng.random() > 0.1:
+                # the flag tags (PhysicalZTag, FSimViaModelTag, TwoPulseFSimTag) first: see known finding circuit:flag-tag-order
+                flags = [x for x in tags if type(x).__name__ in ('PhysicalZTag', 'FSimViaModelTag', 'TwoPulseFSimTag')]
+                if len({type(x).__name__ for x in flags}) > 1:
+                    flags = flags[:1]
+                tags = flags[:1] + [x for x in tags if x not in flags]
+            if len({type(x).__name__ for x in tags} & {'FSimViaModelTag', 'TwoPulseFSimTag'}) < 2:
+                o = o.with_tags(*tags)
+        pool.append(o)
+        return o
+
+    def moments(self, n, qubits, keys, pool, subs=(), depth=0, allow_known=True):
+        cirq, rng = self.cirq, self.rng
+        out = []
+        for _ in range(n):
+            if out and rng.random() < 0.2:
+                out.append(rng.choice(out))            # a repeated moment must share its constant
+                continue
+            free = list(qubits)
+            ops = []
+            for _ in range(rng.choice([1, 2, 2, 3, 4])):
+                if not free:
+                    break
+                if subs and rng.random() < 0.25:
+                    co = self.circuit_op(rng.choice(subs), free, keys, allow_known)
+                    if co is not None:
+                        ops.append(co)
+                        continue
+                o = self.op(free, keys, pool, allow_known)
+                if o is not None:
+                    ops.append(o)
+            mtags = [self.tag() for _ in range(rng.choice([0, 0, 0, 1, 2]))]
+            out.append(cirq.Moment(ops, tags=tuple(mtags)) if mtags else cirq.Moment(ops))
+        return out
+
+    def circuit_op(self, sub, free, keys, allow_known=True):
+        cirq, rng = self.cirq, self.rng
+        sq = sorted(sub.all_qubits())
+        if any(q not in free for q in sq):
+            # remap onto free qubits when possible
+            if len(free) < len(sq):
+                return None
+            targets = rng.sample(free, len(sq))
+            qmap = dict(zip(sq, targets))
+        else:
+            qmap = {}
+            targets = sq
+        for q in targets:
+            free.remove(q)
+        kw = {}
+        r = rng.random()
+        if r < 0.3:
+            kw['repetitions'] = rng.choice([2, 3])
+        elif r < 0.45:
+            kw['repetitions'] = 2
+            kw['repetition_ids'] = ['first', 'second']
+        if rng.random() < 0.3:
+            kw['use_repetition_ids'] = rng.random() < 0.5
+        mkeys = sorted(cirq.measurement_key_names(sub))
+        if mkeys and rng.random() < 0.3:
+            kw['measurement_key_map'] = {mkeys[0]: mkeys[0] + '_x'}
+        if cirq.is_parameterized(sub) and rng.random() < 0.4:
+            kw['param_resolver'] = {'t': rng.choice([0.5, 0.1, self.u, 2])}
+        co = cirq.CircuitOperation(sub, qubit_map=qmap, **kw)
+        if keys and rng.random() < 0.15 and not cirq.is_measurement(sub):
+            co = co.with_classical_controls(self.condition(keys))
+        elif allow_known and rng.random() < 0.05:
+            co = co.with_tags('on-circuit-op')       # known finding circuit:tagged-circuit-operation
+        return co
+
+    def circuit(self, allow_known=True):
+        cirq, rng = self.cirq, self.rng
+        qubits = rng.sample(self.qubits, rng.choice([2, 3, 4, 6]))
+        keys, pool = [], []
+        subs = []
+        for _ in range(rng.choice([0, 0, 1, 2])):
+            sk = []
+            sub_m = self.moments(rng.choice([1, 2, 3]), rng.sample(qubits, rng.choice([1, 2])), sk, pool, subs=subs if rng.random() < 0.4 else (), depth=1,
+                                 allow_known=allow_known)
+            stags = [self.tag()] if rng.random() < 0.2 else []
+            subs.append(cirq.FrozenCircuit(sub_m, tags=stags) if stags else cirq.FrozenCircuit(sub_m))
+        ms = self.moments(rng.choice([1, 2, 3, 5, 8]), qubits, keys, pool, subs=subs, allow_known=allow_known)
+        ctags = [self.tag() for _ in range(rng.choice([0, 0, 1, 2]))]
+        return cirq.Circuit(ms, tags=ctags) if ctags else cirq.Circuit(ms)
+
+
+def make_norm(cirq, cg):
+    """norm(x): x with every real argument rounded to float32 and gate global phases dropped -- the two freedoms the
+    property grants.  Applied to both sides before comparing with Cirq's own equality."""
+    import sympy
+
+    def nexpr(e):
+        if isinstance(e, sympy.Number):
+            f = float(np.float32(float(e)))
+            return sympy.Integer(int(f)) if f == int(f) else sympy.Float(f)
+        if isinstance(e, sympy.Basic) and e.args:
+            return e.func(*[nexpr(a) for a in e.args])
+        return e
+
+    def r32(x):
+        if isinstance(x, sympy.Basic):
+            return nexpr(x)
+        if isinstance(x, (bool, str)) or x is None:
+            return x
+        if isinstance(x, (int, float, np.integer, np.floating)):
+            f = float(np.float32(x))
+            return int(f) if f == int(f) and abs(f) < 2 ** 31 else f
+        return x
+
+    def ngate(g):
+        for cls in (cirq.XPowGate, cirq.YPowGate, cirq.ZPowGate, cirq.HPowGate, cirq.CZPowGate, cirq.ISwapPowGate):
+            if isinstance(g, cls) and cirq.num_qubits(g) <= 2 and all(d == 2 for d in cirq.qid_shape(g)):
+                return cls(exponent=r32(g.exponent))
+        if isinstance(g, cirq.PhasedXPowGate):
+            return cirq.PhasedXPowGate(exponent=r32(g.exponent), phase_exponent=r32(g.phase_exponent))
+        if isinstance(g, cirq.PhasedXZGate):
+            return cirq.PhasedXZGate(x_exponent=r32(g.x_exponent), z_exponent=r32(g.z_exponent), axis_phase_exponent=r32(g.axis_phase_exponent))
+        if isinstance(g, (cg.SycamoreGate, cg.WillowGate)):
+            return g
+        if isinstance(g, cirq.FSimGate):
+            return cirq.FSimGate(theta=r32(g.theta), phi=r32(g.phi))
+        if isinstance(g, cirq.WaitGate) and type(g) is cirq.WaitGate:
+            return cirq.WaitGate(cirq.Duration(nanos=r32(g.duration.total_nanos())), num_qubits=cirq.num_qubits(g))
+        if isinstance(g, cirq.DepolarizingChannel):
+            return cirq.DepolarizingChannel(p=r32(g.p), n_qubits=g.n_qubits)
+        if isinstance(g, cg.InternalGate):
+            return cg.InternalGate(g.gate_name, g.gate_module, g.num_qubits(), custom_args=g.custom_args or None, **{k: r32(v) for k, v in g.gate_args.items()})
+        return g
+
+    def ntag(t):
+        if isinstance(t, cg.InternalTag):
+            return cg.InternalTag(name=t.name, package=t.package, **{k: r32(v) for k, v in t.tag_args.items()})
+        if isinstance(t, float):
+            return r32(t)
+        return t
+
+    def nop(o):
+        tags = tuple(ntag(t) for t in o.tags)
+        u = o.untagged
+        if isinstance(u, cirq.ClassicallyControlledOperation):
+            inner = nop(u.without_classical_controls())
+            res = inner.with_classical_controls(*u.classical_controls)
+        elif isinstance(u, cirq.CircuitOperation):
+            pr = {k: r32(v) for k, v in u.param_resolver.param_dict.items()}
+            res = u.replace(circuit=ncirc(u.circuit).freeze(), param_resolver=cirq.ParamResolver(pr))
+        elif u.gate is not None:
+            res = ngate(u.gate).on(*u.qubits)
+        else:
+            res = u
+        return res.with_tags(*tags) if tags else res
+
+    def nmoment(m):
+        tg = tuple(ntag(t) for t in m.tags)
+        return cirq.Moment([nop(o) for o in m.operations], tags=tg) if tg else cirq.Moment([nop(o) for o in m.operations])
+
+    def ncirc(c):
+        tg = [ntag(t) for t in c.tags]
+        ms = [nmoment(m) for m in c.moments]
+        return cirq.Circuit(ms, tags=tg) if tg else cirq.Circuit(ms)
+
+    return ncirc, nop, nmoment
+
+
+class Adapter:
+    """Turns a cirq circuit into a term of Codec/Intern.v.  Leaves (qubits, gate-and-controls, tags, circuit-operation
+    payloads) are numbered by Python equality/hash, and every operation / moment / circuit is represented by the first
+    value equal to it that was met, because that is what raw_constants (a dict) does."""
+
+    def __init__(self, cirq):
+        self.cirq = cirq
+        self.q, self.g, self.t, self.p = {}, {}, {}, {}
+        self.rep = {}
+
+    @staticmethod
+    def _id(d, k):
+        return d.setdefault(k, len(d))
+
+    def canon(self, x):
+        return self.rep.setdefault(x, x)
+
+    def op(self, o):
+        cirq = self.cirq
+        u = o.untagged
+        inner = u.without_classical_controls() if isinstance(u, cirq.ClassicallyControlledOperation) else u
+        if isinstance(inner, cirq.CircuitOperation):
+            co = inner
+            payload = (co.repetitions, tuple(co.qubit_map.items()), tuple(co.measurement_key_map.items()),
+                       tuple((str(k), str(v)) for k, v in co.param_resolver.param_dict.items()),
+                       None if co.repetition_ids is None else tuple(co.repetition_ids), co.use_repetition_ids, co.repeat_until,
+                       tuple(o.classical_controls))
+            return f'(Circ {self._id(self.p, payload)} {self.circuit(co.circuit)})'
+        o = self.canon(o)
+        u = o.untagged
+        gate = u.without_classical_controls().gate if isinstance(u, cirq.ClassicallyControlledOperation) else u.gate
+        payload = (gate, tuple(o.classical_controls))
+        return (f'(Gate {self._id(self.g, payload)} {coq.zlist(self._id(self.q, q) for q in o.qubits)} '
+                f'{coq.zlist(self._id(self.t, t) for t in o.tags)})')
+
+    def moment(self, m):
+        m = self.canon(m)
+        return f'(Mom [{"; ".join(self.op(o) for o in m.operations)}] {coq.zlist(self._id(self.t, t) for t in m.tags)})'
+
+    def circuit(self, c):
+        c = self.canon(c.freeze())
+        return f'(Cir [{"; ".join(self.moment(m) for m in c.moments)}] {coq.zlist(self._id(self.t, t) for t in c.tags)})'
+
+
+def proto_skeleton(msg):
+    """Index structure of Program.constants and of the top-level circuit (leaf payloads dropped)."""
+    rows = []
+    for c in msg.constants:
+        w = c.WhichOneof('const_value')
+        if w == 'qubit':
+            rows.append((0, [], [], []))
+        elif w == 'tag_value':
+            rows.append((1, [], [], []))
+        elif w == 'operation_value':
+            o = c.operation_value
+            rows.append((2, list(o.qubit_constant_index), list(o.tag_indices), []))
+        elif w == 'moment_value':
+            m = c.moment_value
+            rows.append((3, list(m.operation_indices), [co.circuit_constant_index for co in m.circuit_operations], list(m.tag_indices)))
+        elif w == 'circuit_value':
+            rows.append((4, list(c.circuit_value.moment_indices), list(c.circuit_value.tag_indices), []))
+        else:
+            rows.append((9, [], [], []))
+    return rows, (list(msg.circuit.moment_indices), list(msg.circuit.tag_indices))
+
+
+def classify_op_failure(cirq, o):
+    """Signature for a single operation whose one-operation circuit does not round-trip (call-site attribution)."""
+    names = [type(t).__name__ for t in o.tags]
+    u = o.untagged
+    inner = u.without_classical_controls() if isinstance(u, cirq.ClassicallyControlledOperation) else u
+    if isinstance(inner, cirq.CircuitOperation) and o.tags:
+        return 'circuit:tagged-circuit-operation'
+    flags = [i for i, n in enumerate(names) if n in ('PhysicalZTag', 'FSimViaModelTag', 'TwoPulseFSimTag')]
+    if flags and flags != [0]:
+        return 'circuit:flag-tag-order'
+    if isinstance(inner.gate, cirq.MeasurementGate) and inner.gate.confusion_map:
+        return 'circuit:measurement-confusion-map'
+    if isinstance(inner.gate, cirq.DepolarizingChannel) and float(inner.gate.p) == int(inner.gate.p):
+        return 'circuit:depolarize-integral-probability'
+    import sympy
+    if any(isinstance(cc, cirq.SympyCondition) and isinstance(cc.expr, sympy.Symbol) for cc in o.classical_controls):
+        return 'circuit:sympy-condition-bare-symbol'
+    return 'circuit:op:' + type(inner.gate).__name__
+
+
+def all_ops(cirq, c):
+    for m in c.moments:
+        for o in m.operations:
+            yield o
+            u = o.untagged
+            inner = u.without_classical_controls() if isinstance(u, cirq.ClassicallyControlledOperation) else u
+            if isinstance(inner, cirq.CircuitOperation):
+                yield from all_ops(cirq, inner.circuit)
+
+
+def roundtrip_ok(cirq, S, norm, c):
+    """The property's statement on one circuit: deserialize(serialize(c)) equals c moment by moment after norm."""
+    d = S.deserialize(S.serialize(c))
+    a, b = norm(c), norm(d)
+    if len(a.moments) != len(b.moments) or tuple(a.tags) != tuple(b.tags):
+        return False, d
+    return all(x == y and tuple(x.tags) == tuple(y.tags) for x, y in zip(a.moments, b.moments)), d
+
+
+def moment_literal(m):
+    return f'cirq.Moment([{", ".join(repr(o) for o in m.operations)}], tags={tuple(m.tags)!r})'
+
+
+def circuit_literal(c):
+    """repr(circuit) drops moment tags; this evaluable form keeps them."""
+    return f'cirq.Circuit([{", ".join(moment_literal(m) for m in c.moments)}], tags={list(c.tags)!r})'
+
+
+def explain_failure(ctx, cirq, S, norm, c, why, got=None):
+    """Minimise a failing circuit to the call site: a single operation, or a pair of moments, that fails on its own."""
+    found = False
+    def is_cop(o):
+        u = o.untagged
+        inner = u.without_classical_controls() if isinstance(u, cirq.ClassicallyControlledOperation) else u
+        return isinstance(inner, cirq.CircuitOperation)
+    for want_cop in (False, True):          # leaves first; a circuit operation is blamed only when none of its leaves fails
+        for o in all_ops(cirq, c):
+            if is_cop(o) != want_cop:
+                continue
+            try:
+                ok1, d1 = roundtrip_ok(cirq, S, norm, cirq.Circuit(o))
+                w1 = f'got {list(d1.all_operations())!r}'
+            except Exception as e:
+                ok1, w1 = False, f'raised {type(e).__name__}: {str(e)[:200]}'
+            if not ok1:
+                found = True
+                ctx.violation(classify_op_failure(cirq, o), f'deserialize(serialize(Circuit(op))) is not Circuit(op) for op = {o!r}; {w1}'[:1500],
+                              dict(kind='circuit', literal=circuit_literal(cirq.Circuit(o))))
+        if found:
+            return
+    if found:
+        return
+    def moments_of(cc):
+        yield from cc.moments
+        for o in all_ops(cirq, cc):
+            u = o.untagged
+            inner = u.without_classical_controls() if isinstance(u, cirq.ClassicallyControlledOperation) else u
+            if isinstance(inner, cirq.CircuitOperation):
+                yield from inner.circuit.moments
+    ms = list(moments_of(c))
+    for i, m1 in enumerate(ms):
+        for m2 in ms[i + 1:]:
+            if m1 == m2 and tuple(m1.tags) != tuple(m2.tags):
+                cc = cirq.Circuit([m1, m2])
+                ok2, d2 = roundtrip_ok(cirq, S, norm, cc)
+                if not ok2:
+                    ctx.violation('circuit:moment-tags-shared',
+                                  f'two moments with equal operations and tags {m1.tags!r} / {m2.tags!r} come back with tags {[m.tags for m in d2.moments]!r}: {circuit_literal(cc)}'[:1500],
+                                  dict(kind='circuit', literal=circuit_literal(cc)))
+                    return
+    ctx.violation('circuit:roundtrip', f'{why}; c = {circuit_literal(c)}; got {None if got is None else circuit_literal(got)}'[:4000],
+                  dict(kind='circuit', literal=circuit_literal(c)))
+
+
+def special_circuits(cirq, cg):
+    """Hand-picked cases run before the generated ones (the minimal inputs of the known findings among them)."""
+    import sympy
+    from cirq_google.ops import PhysicalZTag, FSimViaModelTag
+    q0, q1, q2 = cirq.GridQubit(0, 0), cirq.GridQubit(0, 1), cirq.GridQubit(1, 1)
+    t = sympy.Symbol('t')
+    sub = cirq.FrozenCircuit(cirq.X(q0) ** t, cirq.CZ(q0, q1), cirq.measure(q0, key='m'))
+    return [
+        cirq.Circuit([cirq.Moment([cirq.X(q0)], tags=('a',)), cirq.Moment([cirq.X(q0)], tags=('b',))]),
+        cirq.Circuit(cirq.CircuitOperation(cirq.FrozenCircuit(cirq.X(q0))).with_tags('t')),
+        cirq.Circuit(cirq.Z(q0).with_tags('a', PhysicalZTag())),
+        cirq.Circuit(cirq.FSimGate(0.1, 0.2).on(q0, q1).with_tags('a', FSimViaModelTag())),
+        cirq.Circuit(cirq.measure(q0, key='m', confusion_map={(0,): np.array([[0.9, 0.1], [0.2, 0.8]])})),
+        cirq.Circuit(cirq.depolarize(0.0).on(q0)),
+        cirq.Circuit(cirq.measure(q0, key='m'), cirq.X(q1).with_classical_controls(sympy.Symbol('m'))),
+        # equal operations written differently must share a constant and still come back equal
+        cirq.Circuit(cirq.CZ(q0, q1), cirq.CZ(q1, q0), cirq.X(q0) ** 3, cirq.X(q0), cirq.X(q0) ** 1.0, cirq.X(q1).with_tags(1), cirq.X(q1).with_tags(True)),
+        # unequal operations that collapse after float32 rounding keep separate constants
+        cirq.Circuit(cirq.X(q0) ** 0.1, cirq.X(q0) ** (0.1 + 1e-12), cirq.X(q0) ** float(np.float32(0.1))),
+        # one FrozenCircuit used three times with different payloads, and nested
+        cirq.Circuit(cirq.CircuitOperation(sub), cirq.CircuitOperation(sub, repetitions=2),
+                     cirq.CircuitOperation(sub, qubit_map={q0: q2}, measurement_key_map={'m': 'm2'}, param_resolver={'t': 0.25}),
+                     cirq.CircuitOperation(cirq.FrozenCircuit(cirq.CircuitOperation(sub, repetitions=3), cirq.X(q2)))),
+        cirq.Circuit(),
+        cirq.Circuit(cirq.Moment(), cirq.Moment(), tags=['only tags']),
+        cirq.Circuit(cirq.X(cirq.LineQubit(3)), cirq.Y(cirq.NamedQubit('nq')), cirq.CZ(cirq.LineQubit(3), cirq.GridQubit(2, 5))),
+    ]
+
+
+def circuits_stream(ctx, cirq, cg, n, shard=0):
+    S = cg.CIRCUIT_SERIALIZER
+    norm, nop, _ = make_norm(cirq, cg)
+    V = Vocab(ctx, cirq, cg)
+    rows = []
+    todo = (special_circuits(cirq, cg) if shard == 0 else []) + [None] * n
+    for case, c in enumerate(todo):
+        if c is None:
+            c = V.circuit()
+        nops = sum(1 for _ in all_ops(cirq, c))
+        try:
+            msg = S.serialize(c)
+        except Exception as e:
+            explain_failure(ctx, cirq, S, norm, c, f'serialize raised {type(e).__name__}: {str(e)[:200]}')
+            continue
+        try:
+            ok, d = roundtrip_ok(cirq, S, norm, c)
+            why = 'deserialize(serialize(c)) differs from c after float32 rounding'
+        except Exception as e:
+            ok, d, why = False, None, f'deserialize raised {type(e).__name__}: {str(e)[:200]}'
+        shared = len(msg.constants) < 1 + nops + sum(len(o.qubits) + len(o.tags) for o in all_ops(cirq, c))
+        feats = sorted({type(o.untagged.without_classical_controls().gate if isinstance(o.untagged, cirq.ClassicallyControlledOperation) else o.untagged.gate).__name__ for o in all_ops(cirq, c)})
+        ctx.count('circuit:roundtrip', repr(c) + repr([m.tags for m in c.moments]), nops >= 3 and shared,
+                  sample=dict(circuit=str(c)[:600], constants=len(msg.constants), operations=nops, gate_types=feats))
+        if not ok:
+            explain_failure(ctx, cirq, S, norm, c, why, d)
+        # interning model: same index structure
+        ad = Adapter(cirq)
+        term = ad.circuit(c)
+        sk, top = proto_skeleton(msg)
+        rows.append((term, sk, top, c))
+        ctx.count('circuit:constants_table', repr(c), shared and nops >= 3)
+    nl = lambda xs: '[' + '; '.join(str(int(x)) for x in xs) + ']'
+    text = ('From Coq Require Import ZArith List Bool.\nFrom VF Require Import Codec.Intern Base.Harness.\nImport ListNotations.\n'
+            'Definition skel (c : constant Z Z Z Z) : nat * list nat * list nat * list nat :=\n'
+            '  match c with CQ _ => (0, [], [], []) | CT _ => (1, [], [], []) | COp _ q t => (2, q, t, [])\n'
+            '  | CMom o c t => (3, o, map snd c, t) | CCir m t => (4, m, t, []) end.\n'
+            'Definition sk_eqb (a b : nat * list nat * list nat * list nat) : bool :=\n'
+            '  match a, b with (k, x, y, z), (k2, x2, y2, z2) => Nat.eqb k k2 && nl_eqb x x2 && nl_eqb y y2 && nl_eqb z z2 end.\n'
+            'Definition ser (c : circuit Z Z Z Z) := serialize Z.eqb Z.eqb Z.eqb Z.eqb c.\n'
+            'Definition agree (c : circuit Z Z Z Z) (sk : list (nat * list nat * list nat * list nat)) (top : list nat * list nat) : bool :=\n'
+            '  let m := ser c in list_eqb sk_eqb (map skel (fst m)) sk && nl_eqb (fst (snd m)) (fst top) && nl_eqb (snd (snd m)) (snd top)\n'
+            '  && backward m.\n')
+    sk_lit = lambda sk: '[' + '; '.join(f'({k}, {nl(a)}, {nl(b)}, {nl(c_)})' for k, a, b, c_ in sk) + ']'
+    text += 'Open Scope Z_scope.\nDefinition cases : list (circuit Z Z Z Z * list (nat * list nat * list nat * list nat) * (list nat * list nat)) := [\n'
+    text += ';\n'.join(f'({term}, {sk_lit(sk)}%nat, ({nl(top[0])}, {nl(top[1])})%nat)' for term, sk, top, _ in rows) + '].\n'
+    text += 'Eval vm_compute in failing (fun c => match c with (t, sk, top) => agree t sk top end) cases.\n'
+    vals = coq.parse_evals(coq.coq_eval(f'c16_circuits_{ctx.seed}_{shard}', text))
+    for idx in coq.parse_nat_list(vals[0]):
+        term, sk, top, c = rows[idx]
+        ctx.mark_broken('correspondence:constants_table', f'constants table differs from the interning model for {c!r}; table skeleton {sk} top {top}'[:3000])
+
+
 def run(ctx):
     mods = env.import_cirq(('cirq_google',))
     cirq, cg = mods['cirq'], mods['cirq_google']
@@ -79,7 +782,24 @@ def run(ctx):
                         'protobuf and numpy are trusted', 'leaf identifiers are assigned by Python equality/hash']
     ctx.set_obligations(coq.compile_props('C16'))
     q = ctx.tier == 'quick'
+    try:
+        streams(ctx, cirq, cg, v2, q)
+    except Exception:
+        import traceback
+        ctx.mark_broken('harness-exception', traceback.format_exc()[-2000:])
+    # runner.finish() stays silent about broken obligations once a known finding was hit; they must still be reported
+    if ctx.broken and ctx.known_hits and not any(v['found_input'] for v in ctx.violations):
+        ctx.violation('broken:' + ';'.join(sorted({n_ for n_, _ in ctx.broken})),
+                      'obligation or correspondence no longer checks; no failing input found',
+                      dict(kind='broken', broken=[{'name': n_, 'detail': d_} for n_, d_ in ctx.broken]), found_input=False)
+
+
+def streams(ctx, cirq, cg, v2, q):
     bits_stream(ctx, v2, 300 if q else 3000)
+    results_stream(ctx, cirq, v2, 120 if q else 1200)
+    nc = 150 if q else 1500
+    for shard in range(0, nc, 150):
+        circuits_stream(ctx, cirq, cg, min(150, nc - shard), shard)
 
 
 def replay(ctx, data):
